@@ -213,7 +213,8 @@ def measure(s, ix, record):
     """Scores of every query and leaf on this layout: returns tables."""
     weighting = make_weighting(record["weighting"])
     mi = s.model
-    tables = {"leaf": {}, "query": [], "limited": [], "filtered": [], "flen": {}}
+    tables = {"leaf": {}, "query": [], "limited": [], "limited_neutralised": [], "filtered": [], "flen": {}}
+    from whoosim.props.c05 import neutralise_unscaled_boost, has_boost_above_one
     with ix.searcher(weighting=weighting) as srch:
         def run(q, **kw):
             try:
@@ -237,6 +238,11 @@ def measure(s, ix, record):
             q = Q.build(spec, mi.schema)
             tables["query"].append(run(q, limit=None))
             tables["limited"].append(run(q, limit=3))
+            if has_boost_above_one(spec):
+                with neutralise_unscaled_boost():
+                    tables["limited_neutralised"].append(run(q, limit=3))
+            else:
+                tables["limited_neutralised"].append(None)
             # the score must not depend on which other documents match
             from whoosh import query
             fl = query.Term("k", u"k%03d" % 1)
@@ -297,6 +303,11 @@ def check_layout(s, record, tables, li):
         lim = tables["limited"][qi]
         for u, sc in lim.items():
             if u not in got or not close(sc, got[u]):
+                alt = tables["limited_neutralised"][qi]
+                if alt is not None and all(x in got and close(alt[x], got[x]) for x in alt):
+                    s.soft(Violation("score_collector_independent", "layout %d: %s: uid %s scored %r with limit=3 and %r with limit=None; the scores agree once WrappingMatcher.replace() scales its threshold by the boost"
+                                     % (li, Q.show(spec), u, sc, got.get(u)), sig="score_collector_independent:unscaled_boost_in_replace"))
+                    break
                 raise Violation("score_collector_independent", "layout %d: %s: uid %s scored %r with limit=3 and %r with limit=None"
                                 % (li, Q.show(spec), u, sc, got.get(u)), sig="score_collector_independent:limit")
         fl = tables["filtered"][qi]
